@@ -1,9 +1,198 @@
-import Uquic.Proofs.WireVarint
-namespace Uquic.Props.C08
-open Uquic.Model.Wire Uquic.Model.Wire.Varint
+/-
+Property C08 — wire codecs are total, length-consistent and round-trip.
 
-/-- varint: every encodable value parses back, consuming exactly `len v` bytes -/
+Only the property theorems live here; helper lemmas are in `Uquic/Proofs/Wire*.lean`.
+The models (`Uquic/Model/Wire/*`) mirror /repo/quicvarint and /repo/internal/wire; the constants
+they use (`Uquic.Gen.Wire`, `Uquic.Gen.Protocol`) are regenerated from the source before every
+build, so each theorem is re-proved against the current frame numbering, varint bounds,
+encryption-level table and limits.
+-/
+import Uquic.Proofs.WireReject
+
+namespace Uquic.Props.C08
+open Uquic.Model.Wire Uquic.Model.Wire.Varint Uquic.Spec.WireMon Uquic.Proofs.Wire
+
+/-! ## varints (quicvarint) -/
+
+/-- every value the encoder accepts (`v < 2^62`) parses back, consuming exactly `Len(v)` bytes,
+    whatever follows -/
 theorem varint_parse_append (v : Nat) (h : v ≤ maxVarInt8) (rest : Bytes) :
-    parse (enc v ++ rest) = .ok (v, len v) := Uquic.Proofs.Wire.parse_enc v h rest
+    parse (enc v ++ rest) = .ok (v, len v) := parse_enc v h rest
+
+/-- `Len(v)` is exactly the number of bytes `Append` writes -/
+theorem varint_length_exact (v : Nat) (h : v ≤ maxVarInt8) : (enc v).length = len v := len_enc v h
+
+/-- `Parse` consumes exactly the bytes it reports: within the input, and the result only depends on them -/
+theorem varint_consumes_what_it_reports (b : Bytes) (v n : Nat) (h : parse b = .ok (v, n)) :
+    n ≤ b.length ∧ parse (b.take n) = .ok (v, n) := by
+  obtain ⟨h1, _, _, _, h5⟩ := parse_ok_inv b v n h
+  exact ⟨h1, by simpa using h5 []⟩
+
+/-- parsed values are in range; the encoder's length is minimal among all encodings of the value.
+    (`Parse` does NOT require the minimal encoding: see `varint_nonminimal_accepted`.) -/
+theorem varint_range_minimal (b : Bytes) (v n : Nat) (h : parse b = .ok (v, n)) :
+    v ≤ maxVarInt8 ∧ len v ≤ n ∧ (n = 1 ∨ n = 2 ∨ n = 4 ∨ n = 8) := by
+  obtain ⟨_, _, h3, h4, _⟩ := parse_ok_inv b v n h
+  refine ⟨h3, h4, ?_⟩
+  unfold parse at h
+  split at h
+  · simp at h
+  · split at h
+    · simp at h; omega
+    · split at h <;> simp at h; omega
+    · split at h <;> simp at h; omega
+    · split at h <;> simp at h; omega
+
+/-- Go's `Parse` accepts non-minimal encodings (as RFC 9000 §16 allows): 0x4001 is the value 1 -/
+theorem varint_nonminimal_accepted : parse [0x40, 0x01] = .ok (1, 2) ∧ len 1 = 1 := by
+  constructor
+  · rfl
+  · decide
+
+/-- re-encoding a parsed varint parses to the same value -/
+theorem varint_reencode_fixpoint (b : Bytes) (v n : Nat) (h : parse b = .ok (v, n)) :
+    parse (enc v) = .ok (v, len v) := by
+  have := (varint_range_minimal b v n h).1
+  simpa using parse_enc v this []
+
+example : ∃ v, v ≤ maxVarInt8 ∧ len v = 8 := ⟨2 ^ 62 - 1, by decide, by decide⟩
+
+/-! ## frames -/
+
+/-- `parse_append`: for every frame value in the encoder's domain (`roundTripDomain`, the same
+    predicate the harness monitor uses), in every context that lets its type through,
+    parsing `Append(v)` followed by anything gives `v` back and consumes exactly `|Append(v)|`.
+    Frames that extend to the end of the packet (STREAM / DATAGRAM without length) need `rest = []`;
+    ACK needs the parser's exponent to be the sender's. -/
+theorem frame_parse_append (c : Ctx) (f : Frame) (rest : Bytes)
+    (hdom : roundTripDomain f = true) (hacc : typeAccepted c f.typ)
+    (hexp : f.isAck = true → effExp c = sendAckDelayExponent)
+    (hg : f.greedy = true → rest = []) :
+    decode c (f.bytes ++ rest) = .frame f f.bytes.length := decode_bytes c f rest hdom hacc hexp hg
+
+example : roundTripDomain (.stream 4 (2 ^ 62 - 4) [1, 2, 3] true true) = true ∧
+    typeAccepted witnessCtx (Frame.stream 4 (2 ^ 62 - 4) [1, 2, 3] true true).typ := by decide
+example : roundTripDomain (.ack [(7, 9), (1, 3)] 8000 0 5 0) = true := by decide
+
+/-- `length_exact`: `Length()` is the number of bytes `Append` writes, for every frame on which
+    they do not panic (well-typedness = the fixed-size Go array fields) -/
+theorem frame_length_exact (f : Frame) (hw : f.wellTyped = true) (h : f.panics = false) :
+    f.bytes.length = f.length := length_exact f hw h
+
+example : (Frame.ack [(7, 9), (1, 3)] 8000 0 5 0).panics = false := by decide
+
+/-- `consumes_what_it_reports`, for every frame type, encryption level and parser configuration:
+    the count is within the input and the result only depends on the consumed prefix -/
+theorem frame_consumes_what_it_reports (c : Ctx) (b : Bytes) (f : Frame) (n : Nat) (h : decode c b = .frame f n) :
+    n ≤ b.length ∧ decode c (b.take n) = .frame f n := decode_stable c b f n h
+
+/-- totality: at the four encryption levels the decoder returns a frame, END or an error — never
+    a panic — on every byte string (for the Go code this is the correspondence claim) -/
+theorem frame_decode_never_panics (c : Ctx) (hl : c.lvl = 1 ∨ c.lvl = 2 ∨ c.lvl = 3 ∨ c.lvl = 4) (b : Bytes) :
+    decode c b ≠ .panic := decode_no_panic c hl b
+
+/-- everything the decoder accepts is well typed, its (re-encoded) type is acceptable in the same
+    context, and — outside the two exceptions named by `FixCond` — it lies in the encoder's domain -/
+theorem frame_decoded_in_range (c : Ctx) (b : Bytes) (hb : b.length < 2 ^ 62) (f : Frame) (n : Nat)
+    (h : decode c b = .frame f n) :
+    f.wellTyped = true ∧ typeAccepted c f.typ ∧ (FixCond f → f.appendErr = none → roundTripDomain f = true) := by
+  obtain ⟨t, l0, n', _, hacc, _, hbody, _⟩ := decode_inv c b f n h
+  have hdom := body_domain c t (b.drop l0) (by simp; omega) f n' hbody
+  exact ⟨hdom.wt, hdom.typ hacc, hdom.dom⟩
+
+/-! ### re-encoding what parsed -/
+
+/-- FULL statement (false on the unchanged tree, see the witnesses below): re-encoding anything that
+    parsed successfully parses to the same result again -/
+def reencode_fixpoint : Prop := reencode_fixpoint_full
+
+/-- proved restriction: the fixpoint holds for every frame type, level and configuration unless
+    (a) the frame is an ACK whose delay is not representable by the encoder (not a multiple of
+    2^3 µs — which includes the int64 overflow of `delay·2^exp·1000` — or parsed with an exponent
+    other than the sender's) or has more than `MaxNumAckRanges` ranges, or (b) it is an
+    ACK_FREQUENCY whose delay overflowed. `Length()` also matches. -/
+theorem reencode_fixpoint_partial (c : Ctx) (b : Bytes) (f : Frame) (n : Nat) (hb : b.length < 2 ^ 62)
+    (h : decode c b = .frame f n) (hfix : FixCond f) (hexp : f.isAck = true → effExp c = sendAckDelayExponent)
+    (bs : Bytes) (l : Nat) (he : encode f = .ok bs l) :
+    decode c bs = .frame f bs.length ∧ l = bs.length :=
+  Uquic.Proofs.Wire.reencode_fixpoint_partial c b f n hb h hfix hexp bs l he
+
+/-- the ACK delay of a parsed frame satisfies `FixCond` whenever `delay·2^exp·1000 < 2^63` and the
+    parser uses the sender's exponent: the restriction is exactly the overflow -/
+theorem ack_delay_fixcond (delay : Nat) (h : delay * 2 ^ sendAckDelayExponent * 1000 < 2 ^ 63) :
+    ackDelayTime delay sendAckDelayExponent % (1000 * 2 ^ sendAckDelayExponent) = 0 := by
+  unfold ackDelayTime
+  rw [sendExp_eq] at *
+  simp only
+  have h1 : delay * 2 ^ 3 % 2 ^ 64 = delay * 2 ^ 3 := Nat.mod_eq_of_lt (by omega)
+  rw [h1]
+  have h2 : delay * 2 ^ 3 * 1000 % 2 ^ 64 = delay * 2 ^ 3 * 1000 := Nat.mod_eq_of_lt (by omega)
+  rw [h2, if_neg (by omega)]
+  omega
+
+/-- kernel-checked counterexample (known finding `ack-delay-reencode`): ACK Delay 2^62-1 with exponent 3 -/
+theorem reencode_fixpoint_witness : ¬ reencode_fixpoint := Uquic.Proofs.Wire.reencode_fixpoint_witness
+
+/-- the three known ways the full statement fails, each checked by the kernel on a concrete packet -/
+theorem reencode_fixpoint_witnesses :
+    fixpointFails witnessCtx witnessBytes = true ∧
+    fixpointFails witnessCtx [0x40, 0xaf, 0x01, 0x01, 0xc0, 0x20, 0xc4, 0x9b, 0xa5, 0xe3, 0x53, 0xf8, 0x01] = true ∧
+    fixpointFails witnessCtx ([0x02, 0x40, 0xc8, 0x00, 0x40, 0x40, 0x00] ++ List.replicate 128 0) = true :=
+  ⟨fixpoint_fails_ackDelay, fixpoint_fails_ackFrequency, fixpoint_fails_ackRanges⟩
+
+/-! ### rejections -/
+
+/-- MAX_STREAMS / STREAMS_BLOCKED above 2^60 are rejected -/
+theorem reject_stream_count {p : Bytes} {v : Nat} (h : Decodes p v) (hv : v > maxStreamCount) (typ : Nat) (r : Bytes) :
+    parseMaxStreams (p ++ r) typ = .error .streamCount ∧ parseStreamsBlocked (p ++ r) typ = .error .streamCount :=
+  ⟨reject_maxStreams h hv typ r, reject_streamsBlocked h hv typ r⟩
+
+example : Decodes (enc (2 ^ 60 + 1)) (2 ^ 60 + 1) ∧ 2 ^ 60 + 1 > maxStreamCount :=
+  ⟨decodes_enc _ (by decide), by decide⟩
+
+/-- RESET_STREAM_AT: final size below reliable size is rejected -/
+theorem reject_final_below_reliable {p1 p2 p3 p4 : Bytes} {sid ec fs rs : Nat} (h1 : Decodes p1 sid) (h2 : Decodes p2 ec)
+    (h3 : Decodes p3 fs) (h4 : Decodes p4 rs) (hgt : rs > fs) (r : Bytes) :
+    parseResetStream (p1 ++ p2 ++ p3 ++ p4 ++ r) true = .error .reliableGtFinal :=
+  reject_reliable_gt_final h1 h2 h3 h4 hgt r
+
+/-- NEW_CONNECTION_ID: connection ID length 0 or above 20, and Retire Prior To above the sequence number -/
+theorem reject_connection_id {p1 p2 : Bytes} {seq rpt : Nat} (h1 : Decodes p1 seq) (h2 : Decodes p2 rpt) (r : Bytes) :
+    (rpt > seq → parseNewConnectionID (p1 ++ p2 ++ r) = .error .retireGtSeq) ∧
+    (rpt ≤ seq → ∀ l0 : UInt8, (l0.toNat = 0 ∨ l0.toNat > maxConnIDLen) →
+      ∃ e, parseNewConnectionID (p1 ++ p2 ++ l0 :: r) = .error e) := by
+  refine ⟨fun hgt => reject_ncid_retire h1 h2 hgt r, fun hle l0 hbad => ?_⟩
+  rcases reject_ncid_len h1 h2 hle l0 r hbad with h | h
+  · exact ⟨_, h.1⟩
+  · exact ⟨_, h.1⟩
+
+/-- frame types not allowed at an encryption level, and unknown / un-negotiated types, are rejected -/
+theorem reject_frame_type (c : Ctx) (t : Nat) (r : Bytes) (ht0 : t ≠ 0) (htm : t ≤ maxVarInt8)
+    (h : ¬ typeAccepted c t) (hl : c.lvl = 1 ∨ c.lvl = 2 ∨ c.lvl = 3 ∨ c.lvl = 4) :
+    decode c (enc t ++ r) = .err .encLevel t ∨ decode c (enc t ++ r) = .err .unknownType t := by
+  by_cases hv : (isValidRFC9000 t
+      || (c.supportsDatagrams && isDatagramFrameType t)
+      || (c.supportsResetStreamAt && decide (t = ftResetStreamAt))
+      || (c.supportsAckFrequency && (decide (t = ftAckFrequency) || decide (t = ftImmediateAck)))) = true
+  · left
+    have hne := allowed_ne_none t c.lvl hl
+    cases ha : isAllowedAtEncLevel t c.lvl with
+    | none => exact absurd ha hne
+    | some v =>
+      cases v with
+      | true => exact absurd ⟨hv, ha⟩ h
+      | false => exact reject_enc_level c t r ht0 htm hv ha
+  · right
+    exact reject_unknown_type c t r ht0 htm (by simpa using hv)
+
+/-- the regenerated allowed-at-encryption-level table, exhaustively over all 256 one-byte types:
+    Initial/Handshake carry only PING, ACK, CRYPTO, CONNECTION_CLOSE(0x1c) (RFC 9000 §12.4) -/
+theorem enc_level_table :
+    (∀ t ∈ List.range 256, ∀ lvl ∈ [1, 2],
+      isAllowedAtEncLevel t lvl = some (decide (t = 1 ∨ t = 2 ∨ t = 3 ∨ t = 6 ∨ t = 0x1c))) ∧
+    (∀ t ∈ List.range 256,
+      isAllowedAtEncLevel t 3 = some (decide (¬(t = 2 ∨ t = 3 ∨ t = 6 ∨ t = 7 ∨ t = 0x19 ∨ t = 0x1b ∨ t = 0x1c)))
+      ∧ isAllowedAtEncLevel t 4 = some true) :=
+  ⟨enc_level_table_initial_handshake, enc_level_table_app⟩
 
 end Uquic.Props.C08
